@@ -426,3 +426,5 @@ func remarshal(src any, dst any) {
 	b, _ := json.Marshal(src)
 	json.Unmarshal(b, dst)
 }
+
+func sortStrings(s []string) { sort.Strings(s) }
